@@ -27,6 +27,15 @@ class Killed(BaseException):
     pass
 
 
+class Stuck(Exception):
+    """the scheduler granted a step and the worker neither reached the next scheduling point nor returned: it blocks
+    somewhere the instrumentation does not see (e.g. on a lock object that is not one of the instrumented ones)"""
+
+
+STEP_TIMEOUT = 20.0
+LOST_CONTROL = {"flag": False, "why": ""}
+
+
 class Worker:
     def __init__(self, sched, name, fn):
         self.sched = sched
@@ -83,11 +92,15 @@ class Sched:
 
     # ---- scheduler side
     def spawn(self, name, fn):
+        import time
         w = Worker(self, name, fn)
         w.thread.start()
+        deadline = time.time() + STEP_TIMEOUT
         with self.cv:
             while w.state in ("new", "running"):
-                self.cv.wait()
+                self.cv.wait(1.0)
+                if time.time() > deadline and w.state in ("new", "running"):
+                    raise Stuck(f"worker {name} did not reach its first scheduling point")
         return w
 
     def blocked(self, w):
@@ -102,22 +115,28 @@ class Sched:
             if w.state != "waiting" or self.blocked(w):
                 return None
             kind = w.pending[0]
+            import time
             self.turn = w
             w.state = "running"
             self.cv.notify_all()
+            deadline = time.time() + STEP_TIMEOUT
             while w.state == "running":
-                self.cv.wait()
+                self.cv.wait(1.0)
+                if time.time() > deadline and w.state == "running":
+                    raise Stuck(f"worker {w.name} was granted a '{kind}' step and blocks outside the instrumented operations")
             return kind
 
     def kill(self, w):
         with self.cv:
             if w.state in ("done", "killed"):
                 return
+            import time
             w.kill = True
             self.cv.notify_all()
-            while w.state not in ("done", "killed"):
-                self.cv.wait()
-        w.thread.join(5)
+            deadline = time.time() + 5.0
+            while w.state not in ("done", "killed") and time.time() < deadline:
+                self.cv.wait(0.5)
+        w.thread.join(1 if w.state not in ("done", "killed") else 5)
 
 
 class ILock:
@@ -127,16 +146,30 @@ class ILock:
         self.sched = sched
         self.name = name
         self.holder = None
+        self.plain = threading.Lock()     # used when the acquiring thread is not under this lock's scheduler
+
+    def scheduled(self):
+        w = getattr(threading.current_thread(), "_agg_worker", None)
+        return w is not None and w.sched is self.sched and not w.in_helper
 
     def __enter__(self):
         w = getattr(threading.current_thread(), "_agg_worker", None)
+        if not self.scheduled():
+            # a lock object that outlived its scheduler (created lazily / cached by the code under test), or the main thread
+            self.plain.acquire()
+            self.holder = w if w is not None else "main"
+            return self
         self.sched.point("acq", self)
         if self.holder is not None:
             raise RuntimeError(f"scheduler error: lock {self.name} granted while held")
-        self.holder = w if w is not None else "main"
+        self.holder = w
         return self
 
     def __exit__(self, et, ev, tb):
+        if self.plain.locked():
+            self.holder = None
+            self.plain.release()
+            return False
         if et is None or not issubclass(et, Killed):
             self.sched.point("rel", self)
         self.holder = None
@@ -152,6 +185,8 @@ class ILock:
     def reset_if_held_by(self, workers):
         if self.holder in workers:
             self.holder = None
+            if self.plain.locked():
+                self.plain.release()
 
 
 class _OsProxy:
@@ -188,7 +223,7 @@ class StatSnapshot:
 class Instrument:
     """install()/uninstall() the wrappers in panoptica.panoptica_aggregator's namespace"""
 
-    NAMES = ["filelock", "inevalfilelock", "_write_content", "_load_first_column_entries", "_read_first_row",
+    NAMES = ["filelock", "inevalfilelock", "Lock", "_write_content", "_load_first_column_entries", "_read_first_row",
              "os", "open", "print", "atexit", "Panoptica_Statistic"]
 
     def __init__(self):
@@ -210,6 +245,16 @@ class Instrument:
         s = self.sched = Sched()
         self.lockF = PA.filelock = ILock(s, "F")
         self.lockE = PA.inevalfilelock = ILock(s, "E")
+        if "Lock" in saved:
+            # locks the code creates later (per file, lazily, ...) are instrumented as well
+            made = []
+            self.made_locks = made
+
+            def make_lock(*a, **k):
+                l = ILock(s, f"L{len(made)}")
+                made.append(l)
+                return l
+            PA.Lock = make_lock
         self.atexit = PA.atexit = _AtexitStub()
         PA.os = _OsProxy(s)
         PA.print = lambda *a, **k: None
@@ -297,6 +342,10 @@ class FakeResult:
 
     def to_dict(self):
         return {"m": self.v}
+
+
+# constructor options of the aggregator per setup id: setup 9 = ONE evaluator object shared by all its sessions, timing column on
+AGG_KW = {9: {"log_times": True}}
 
 
 class StubEvaluator:
@@ -389,7 +438,9 @@ class Runner:
         self.inst, self.workdir = inst, Path(workdir)
         self.evaluators, self.inputs = evaluators, inputs
         self.hdr_ids, self.row_ids, self.header_text = hdr_ids, row_ids, header_text
-        self.row_text = {v: k for k, v in row_ids.items()}
+        self.row_text = {}
+        for k, v in row_ids.items():
+            self.row_text.setdefault(v, k)        # the first (setup 7) text of a payload is used for pre-existing rows
         self.n = 0
 
     # -- files
@@ -427,7 +478,7 @@ class Runner:
         ev = self.evaluators[h](lambda: self.inst.sched)
 
         def build():
-            return self.inst.PA.Panoptica_Aggregator(ev, c.given)
+            return self.inst.PA.Panoptica_Aggregator(ev, c.given, **AGG_KW.get(h, {}))
         if sync:
             n0 = len(self.inst.atexit.handlers)
             try:
@@ -474,7 +525,7 @@ class Runner:
         ws = ([c.ctor] if isinstance(c.ctor, Worker) else []) + (c.workers or [])
         for w in ws:
             self.inst.sched.kill(w)
-        for lk in (self.inst.lockE, self.inst.lockF):
+        for lk in [self.inst.lockE, self.inst.lockF] + list(getattr(self.inst, "made_locks", [])):
             lk.reset_if_held_by(ws)
         hs = set(id(h) for h in c.handlers)
         self.inst.atexit.handlers = [h for h in self.inst.atexit.handlers if id(h) not in hs]
@@ -662,7 +713,12 @@ def build_env(workdir, real=False):
                  ([[0, 0], [0, 0]], [[1, 1], [0, 0]]), ([[1, 1], [0, 2]], [[1, 0], [2, 2]])]
         inputs = {i + 1: (np.array(a, dtype=np.uint8), np.array(b, dtype=np.uint8)) for i, (a, b) in enumerate(pairs)}
     else:
-        evaluators = {7: lambda sr: StubEvaluator(sr, ("m",)), 8: lambda sr: StubEvaluator(sr, ("m", "k"))}
+        shared = StubEvaluator(None, ("m",))
+
+        def fac9(sr, e=shared):
+            e.sched_ref = sr                  # the same evaluator object in every session, as a user would reuse it
+            return e
+        evaluators = {7: lambda sr: StubEvaluator(sr, ("m",)), 8: lambda sr: StubEvaluator(sr, ("m", "k")), 9: fac9}
         inputs = {p: (np.array([[p]]), np.array([[p]])) for p in range(1, 7)}
     # sequential reference runs on the unmodified module
     import contextlib
@@ -676,13 +732,13 @@ def build_env(workdir, real=False):
                 if q.exists():
                     q.unlink()
             n0 = None
-            agg = PA.Panoptica_Aggregator(fac(lambda: null), f)
+            agg = PA.Panoptica_Aggregator(fac(lambda: null), f, **AGG_KW.get(h, {}))
             for p, (a, b) in inputs.items():
                 agg.evaluate(a, b, f"x{p}")
             lines = read_lines(f)
             header_text[h] = lines[0]
             hdr_ids[tuple(lines[0])] = h
-            if h == 7:
+            if h in (7, 9):
                 for p, cells in zip(inputs, lines[1:]):
                     row_ids.setdefault(tuple(cells[1:]), p)
             import atexit as _ax
@@ -693,7 +749,7 @@ def build_env(workdir, real=False):
             for q in (f, f.parent / ("panoptica_aggregator_tmp_" + f.name)):
                 if q.exists():
                     q.unlink()
-    if len(row_ids) != len(inputs):
+    if len(set(row_ids.values())) != len(inputs) or len(row_ids) not in (len(inputs), 2 * len(inputs)):
         raise RuntimeError("inputs do not give pairwise distinct rows")
     inst.install()
     runner = Runner(inst, workdir, evaluators, inputs, hdr_ids, row_ids, header_text)
@@ -764,11 +820,26 @@ def oracle_checks(runner, scen, r):
 
 def check_batch(runner, scens, op_base=1600):
     """run every scenario on the implementation and the model; returns one verdict dict per scenario"""
-    runs = [runner.run(sc) for sc in scens]
+    all_scens = scens
+    runs_all = []
+    for sc in scens:
+        if LOST_CONTROL["flag"]:
+            runs_all.append(None)
+            continue
+        try:
+            runs_all.append(runner.run(sc))
+        except Stuck as e:
+            LOST_CONTROL["flag"], LOST_CONTROL["why"] = True, str(e)
+            runs_all.append(None)
+    lost = {"status": "disagree", "events": [], "moved": [], "switches": 0, "blocked": 0, "final": [],
+            "what": "the harness lost control of the aggregator's threads (" + LOST_CONTROL["why"] + "): the locking of the code "
+                    "under test is no longer the two module-level locks the model describes; schedules cannot be replayed"}
+    scens = [sc for sc, r in zip(all_scens, runs_all) if r is not None]
+    runs = [r for r in runs_all if r is not None]
     minputs = [runner.model_input(sc, r["init"], r["events"]) for sc, r in zip(scens, runs)]
-    mouts = common.engine_run(op_base + 1, minputs, nproc=1)
+    mouts = common.engine_run(op_base + 1, minputs, nproc=1) if runs else []
     oc = [oracle_checks(runner, sc, r) for sc, r in zip(scens, runs)]
-    oouts = common.engine_run(op_base + 2, [c for c, _ in oc], nproc=1)
+    oouts = common.engine_run(op_base + 2, [c for c, _ in oc], nproc=1) if runs else []
     verdicts = []
     for sc, r, mi, mo, (chk, lab), oo in zip(scens, runs, minputs, mouts, oc, oouts):
         v = {"status": "ok", "events": r["events"], "moved": r["moved"], "model_in": mi, "model_out": mo}
@@ -797,7 +868,8 @@ def check_batch(runner, scens, op_base=1600):
         v["switches"] = sum(1 for a, b in zip(r["events"], r["events"][1:]) if a != b)
         v["blocked"] = sum(1 for e, m in zip(r["events"], r["moved"]) if m is None)
         verdicts.append(v)
-    return verdicts
+    it = iter(verdicts)
+    return [dict(lost) if r is None else next(it) for r in runs_all]
 
 
 def _worker(args):
@@ -875,6 +947,10 @@ def record(ctx, scens, verdicts, layer, real=False, triples=None, prop="C16"):
             triples.append((int(prop[1:]) * 100 + 1, v["model_in"], v["model_out"]))
         if v["status"] == "ok":
             continue
+        if v["status"] == "disagree" and v.get("what", "").startswith("the harness lost control"):
+            if getattr(ctx, "_lost_control_reported", False):
+                continue                      # one report: every later scenario is affected in the same way
+            ctx._lost_control_reported = True
         rep = {"scenario": dict(sc, events=v["events"], complete=False), "evaluator": "real" if real else "stub",
                "layer": layer, "detail": {k: v[k] for k in ("failed_check", "model", "observed") if k in v}}
         if sc.get("finding_key"):
@@ -963,3 +1039,139 @@ def fork_smoke(rng, n_workers=4, n_subjects=6):
     import shutil
     shutil.rmtree(d, ignore_errors=True)
     return jobs, kk, lines, seq, rep
+
+
+FORK_ROUNDS = r"""
+import os, sys, io, contextlib, json
+os.environ["PANOPTICA_CITATION_REMINDER"] = "false"
+sys.path.insert(0, sys.argv[1])
+import numpy as np
+import multiprocessing as mp
+from panoptica import Panoptica_Evaluator, InputType
+from panoptica.metrics import Metric
+import panoptica.panoptica_aggregator as PA
+ev = Panoptica_Evaluator(InputType.MATCHED_INSTANCE, instance_metrics=[Metric.IOU])
+out = sys.argv[2]
+rounds = json.loads(sys.argv[3])          # per round: per worker [name, k] or null
+opts = json.loads(sys.argv[4])
+def arr(k):
+    a = np.zeros((2, 2), np.uint8); a.flat[:k] = 1; return a
+ref = arr(4)
+def work(agg, wi, barrier, q):
+    errs = []
+    with contextlib.redirect_stdout(io.StringIO()):
+        for rd in rounds:
+            try:
+                barrier.wait(60)
+            except Exception as e:
+                errs.append("barrier:" + type(e).__name__)
+                break
+            item = rd[wi]
+            if item is None:
+                continue
+            try:
+                agg.evaluate(arr(item[1]), ref, item[0])
+            except BaseException as e:
+                errs.append(type(e).__name__ + ":" + str(e)[:80])
+    q.put((wi, errs))
+if __name__ == "__main__":
+    ctx = mp.get_context("fork")
+    with contextlib.redirect_stdout(io.StringIO()):
+        agg = PA.Panoptica_Aggregator(ev, out, continue_file=opts["continue_file"])
+    n = len(rounds[0])
+    barrier = ctx.Barrier(n)
+    q = ctx.Queue()
+    ps = [ctx.Process(target=work, args=(agg, i, barrier, q)) for i in range(n)]
+    [p.start() for p in ps]; [p.join(180) for p in ps]
+    errs = {}
+    while not q.empty():
+        wi, e = q.get()
+        errs[wi] = e
+    print(json.dumps({"alive": [p.is_alive() for p in ps], "codes": [p.exitcode for p in ps], "errors": errs}))
+    [p.kill() for p in ps if p.is_alive()]
+    with contextlib.redirect_stdout(io.StringIO()):
+        seq = PA.Panoptica_Aggregator(ev, out.replace(".tsv", "_seq.tsv"), continue_file=opts["continue_file"])
+        for name, k in sorted(set((it[0], it[1]) for rd in rounds for it in rd if it is not None)):
+            seq.evaluate(arr(k), ref, name)
+"""
+
+
+def fork_rounds_case(rng, n_workers=4, n_rounds=5):
+    """barrier-synchronised rounds: in every round all workers call evaluate at the same moment, several of them with the
+    SAME subject name (the claim step must be exclusive across PROCESSES, whatever constructor options were used)"""
+    kk = {}
+    rounds = []
+    for r in range(n_rounds):
+        shared = f"shared{r}"
+        kk[shared] = rng.randint(1, 4)
+        rd = []
+        for w in range(n_workers):
+            if rng.random() < 0.7:
+                rd.append([shared, kk[shared]])
+            elif rng.random() < 0.8:
+                nm = f"w{w}r{r}"
+                kk[nm] = rng.randint(1, 4)
+                rd.append([nm, kk[nm]])
+            else:
+                rd.append(None)
+        rounds.append(rd)
+    return {"rounds": rounds, "continue_file": rng.random() < 0.5}
+
+
+def fork_rounds_run(case):
+    """-> (lines of the final file, lines of the sequential file, process report dict or text)"""
+    import json
+    import shutil
+    import subprocess
+    import sys
+    import tempfile
+    d = tempfile.mkdtemp(dir=str(common.WORK))
+    script = Path(d) / "rounds.py"
+    script.write_text(FORK_ROUNDS)
+    out = str(Path(d) / "rounds.tsv")
+    try:
+        p = subprocess.run([sys.executable, str(script), str(common.REPO), out, json.dumps(case["rounds"]),
+                            json.dumps({"continue_file": case["continue_file"]})], capture_output=True, text=True, timeout=400,
+                           env=dict(os.environ, PYTHONHASHSEED="0"))
+        txt = p.stdout.strip().split("\n")[-1] if p.stdout.strip() else p.stderr[-500:]
+    except subprocess.TimeoutExpired:
+        txt = "timeout"
+    try:
+        rep = json.loads(txt)
+    except Exception:
+        rep = {"raw": txt}
+    lines = read_lines(out)
+    seq = read_lines(out.replace(".tsv", "_seq.tsv"))
+    shutil.rmtree(d, ignore_errors=True)
+    return lines, seq, rep
+
+
+def fork_rounds_problems(lines, seq, rep):
+    probs = []
+    if "raw" in rep:
+        return ["the forked run did not complete: " + str(rep["raw"])[:200]]
+    if any(rep.get("alive", [])):
+        probs.append("a worker process never returned")
+    if any(c not in (0,) for c in rep.get("codes", [])):
+        probs.append(f"worker exit codes {rep.get('codes')}")
+    bad = {k: v for k, v in (rep.get("errors") or {}).items() if v}
+    if bad:
+        probs.append("evaluate raised in a worker: " + json_short(bad))
+    if lines is None or seq is None:
+        probs.append("output file missing")
+        return probs
+    names = [r[0] for r in lines[1:]]
+    dup = sorted({n for n in names if names.count(n) > 1})
+    if dup:
+        probs.append(f"subjects with more than one row: {dup}")
+    if lines[:1] != seq[:1]:
+        probs.append("header differs from a sequential run")
+    if sorted(map(tuple, lines[1:])) != sorted(map(tuple, seq[1:])):
+        missing = sorted(set(r[0] for r in seq[1:]) - set(names))
+        probs.append("rows differ from a sequential run" + (f" (no row for {missing})" if missing else ""))
+    return probs
+
+
+def json_short(x):
+    import json
+    return json.dumps(x)[:240]
